@@ -125,6 +125,7 @@ type e2eObs struct {
 	Status  int
 	XFF     string
 	Elapsed time.Duration
+	Closed  bool // no response and the peer closed the connection (EOF / reset), as opposed to our read deadline expiring
 }
 
 // exchange sends raw bytes (segmented) and reads one HTTP response, if any.
@@ -147,7 +148,8 @@ func exchange(proxy string, raw []byte, cuts []int, deadline time.Duration) e2eO
 	conn.SetReadDeadline(time.Now().Add(deadline))
 	resp, err := http.ReadResponse(bufio.NewReader(conn), nil)
 	if err != nil {
-		return e2eObs{Status: 0, Elapsed: time.Since(t0)}
+		ne, isNet := err.(net.Error)
+		return e2eObs{Status: 0, Elapsed: time.Since(t0), Closed: !(isNet && ne.Timeout())}
 	}
 	defer resp.Body.Close()
 	body, _ := io.ReadAll(resp.Body)
@@ -284,7 +286,7 @@ func e2eCase(ensure func() *child, h []byte, r *rng.R, goodHdr []byte, em *e2eMe
 	if len(h) > 2 && len(h) < 200 {
 		cuts = []int{1 + r.Intn(len(h)-1), len(h)}
 	}
-	o := exchange(c.proxy, raw, cuts, 2*time.Second)
+	o := exchange(c.proxy, raw, cuts, e2eHeaderTimeout+1500*time.Millisecond)
 	// liveness: the process is still there and serves a well-formed connection
 	time.Sleep(15 * time.Millisecond)
 	crashed := c.dead()
@@ -320,9 +322,9 @@ func e2eCase(ensure func() *child, h []byte, r *rng.R, goodHdr []byte, em *e2eMe
 	if st < 0 {
 		st = 0
 	}
-	coq := fmt.Sprintf("{| e_hdr := %s; e_req := %s; e_crashed := %s; e_alive := %s; e_status := %d; e_xff := %s; e_sock_ip := %s |}",
+	coq := fmt.Sprintf("{| e_hdr := %s; e_req := %s; e_crashed := %s; e_alive := %s; e_status := %d; e_xff := %s; e_sock_ip := %s; e_closed := %s |}",
 		coqfmt.Bytes(h), coqfmt.Bytes(req), coqfmt.Bool(crashed), coqfmt.Bool(alive), st, coqXFF(o.XFF),
-		coqfmt.Bytes(net.ParseIP("127.0.0.1").To16()))
+		coqfmt.Bytes(net.ParseIP("127.0.0.1").To16()), coqfmt.Bool(o.Closed || o.Status != 0))
 	return coq, ecaseJSON{"e2e", hex.EncodeToString(h), cuts, ""}
 }
 
